@@ -57,6 +57,90 @@ def token_balance_ok(toks, parsed):
     if parsed and depth != 0: return 'unbalanced block brackets'
     return None
 
+def token_grammar_ok(kinds):
+    """independent recogniser of the token grammar documented in the header of parser.py, over token kind names:
+    stream ::= STREAM-START implicit_document? explicit_document* STREAM-END ; implicit_document ::= block_node DOCUMENT-END* ;
+    explicit_document ::= DIRECTIVE* DOCUMENT-START block_node? DOCUMENT-END* ; properties ::= TAG ANCHOR? | ANCHOR TAG? ;
+    block_node ::= ALIAS | properties block_content? | block_content ; flow_node likewise with flow_content ;
+    block_sequence ::= BLOCK-SEQUENCE-START (BLOCK-ENTRY block_node?)* BLOCK-END ; indentless_sequence ::= (BLOCK-ENTRY block_node?)+ ;
+    block_mapping ::= BLOCK-MAPPING-START ((KEY bnois?)? (VALUE bnois?)?)* BLOCK-END ;
+    flow_sequence / flow_mapping ::= START (entry FLOW-ENTRY)* entry? END ; entry ::= flow_node | KEY flow_node? (VALUE flow_node?)?
+    Returns None when the sequence is in the language, else a short description of where it leaves it."""
+    pos = [0]; n = len(kinds)
+    FLOW_CONTENT = ('FlowSequenceStart', 'FlowMappingStart', 'Scalar')
+    BLOCK_CONTENT = FLOW_CONTENT + ('BlockSequenceStart', 'BlockMappingStart')
+    FIRST_FLOW = ('Alias', 'Tag', 'Anchor') + FLOW_CONTENT
+    FIRST_BLOCK = ('Alias', 'Tag', 'Anchor') + BLOCK_CONTENT
+    class No(Exception): pass
+    def pk(): return kinds[pos[0]] if pos[0] < n else None
+    def take(k):
+        if pk() == k: pos[0] += 1; return True
+        return False
+    def need(k):
+        if not take(k): raise No('token #%d: expected %s, found %s' % (pos[0], k, pk()))
+    def properties():
+        if take('Tag'): take('Anchor'); return True
+        if take('Anchor'): take('Tag'); return True
+        return False
+    def flow_coll():
+        end = 'FlowSequenceEnd' if kinds[pos[0]] == 'FlowSequenceStart' else 'FlowMappingEnd'
+        pos[0] += 1
+        while True:
+            if take(end): return
+            if take('Key'):
+                if pk() in FIRST_FLOW: flow_node()
+                if take('Value'):
+                    if pk() in FIRST_FLOW: flow_node()
+            else: flow_node()
+            if take(end): return
+            need('FlowEntry')
+    def flow_node():
+        if take('Alias'): return
+        had = properties()
+        if pk() in ('FlowSequenceStart', 'FlowMappingStart'): flow_coll()
+        elif take('Scalar'): pass
+        elif not had: raise No('token #%d: expected a flow node, found %s' % (pos[0], pk()))
+    def block_content():
+        k = pk()
+        if k in ('FlowSequenceStart', 'FlowMappingStart'): flow_coll()
+        elif k == 'Scalar': pos[0] += 1
+        elif k == 'BlockSequenceStart':
+            pos[0] += 1
+            while take('BlockEntry'):
+                if pk() in FIRST_BLOCK: block_node(False)
+            need('BlockEnd')
+        elif k == 'BlockMappingStart':
+            pos[0] += 1
+            while pk() in ('Key', 'Value'):
+                if take('Key'):
+                    if pk() in FIRST_BLOCK + ('BlockEntry',): block_node(True)
+                if take('Value'):
+                    if pk() in FIRST_BLOCK + ('BlockEntry',): block_node(True)
+            need('BlockEnd')
+        else: raise No('token #%d: expected node content, found %s' % (pos[0], k))
+    def block_node(indentless_ok):
+        if take('Alias'): return
+        had = properties()
+        if indentless_ok and pk() == 'BlockEntry':
+            while take('BlockEntry'):
+                if pk() in FIRST_BLOCK: block_node(False)
+        elif pk() in BLOCK_CONTENT: block_content()
+        elif not had: raise No('token #%d: expected a block node, found %s' % (pos[0], pk()))
+    try:
+        need('StreamStart')
+        if pk() in FIRST_BLOCK:
+            block_node(False)
+            while take('DocumentEnd'): pass
+        while pk() in ('Directive', 'DocumentStart'):
+            while take('Directive'): pass
+            need('DocumentStart')
+            if pk() in FIRST_BLOCK: block_node(False)
+            while take('DocumentEnd'): pass
+        need('StreamEnd')
+        if pos[0] != n: raise No('tokens after STREAM-END')
+    except No as e: return str(e)
+    return None
+
 def check_marks(items, text, pos, bad, what, exact=True, c_index_shift=0):
     last = -1; n = len(text)
     for it in items:
@@ -86,6 +170,9 @@ def c09(text):
         check_marks(toks, text, pos, bad, 'token')
         r = token_balance_ok(toks, evs is not None)
         if r: bad.append(dict(kind='token_grammar', what='token sequence: ' + r))
+        if evs is not None:
+            g = token_grammar_ok([type(t).__name__[:-5] for t in toks])
+            if g: bad.append(dict(kind='token_grammar', what='the input parses but its token sequence is not in the documented token grammar (%s): %s' % (g, ' '.join(type(t).__name__[:-5] for t in toks)[:600])))
         for t in toks:
             s, e = t.start_mark, t.end_mark
             if not (0 <= s.index <= e.index <= n): break
@@ -158,6 +245,8 @@ def c09p(kinds):
         return dict(bad=[dict(kind='non_yaml_exception', what='the parser fed a token list raised %s' % type(e).__name__, exc=type(e).__name__)], outcome='crash')
     bad = []
     if not event_grammar_ok(evs): bad.append(dict(kind='event_grammar', what='parser accepted the tokens but produced an ungrammatical event list'))
+    g = token_grammar_ok(['StreamStart'] + list(kinds) + ['StreamEnd'])
+    if g: bad.append(dict(kind='token_grammar', what='the parser accepted a token list that is not in the documented token grammar (%s)' % g))
     last = -1
     for e in evs:
         if e.start_mark.index < last or e.start_mark.index > e.end_mark.index: bad.append(dict(kind='mark_backwards', what='event marks not ordered')); break
@@ -640,38 +729,70 @@ def _permuted(o, rng, memo):
         memo[id(o)] = n; return n
     return o
 
+def _same_order(a, b, memo):
+    """a was dumped, b loaded back: every dict of b lists its keys in the insertion order of the corresponding dict of a"""
+    if (id(a), id(b)) in memo: return None
+    memo.add((id(a), id(b)))
+    if isinstance(a, dict) and isinstance(b, dict):
+        ka, kb = list(a), list(b)
+        if len(ka) != len(kb): return None                                   # not a faithful round trip: other clauses
+        for x, y in zip(ka, kb):
+            if not (type(x) is type(y) and (x == y or (x != x and y != y))): return 'insertion order %r, document order %r' % (ka[:8], kb[:8])
+        for x, y in zip(ka, kb):
+            r = _same_order(a[x], b[y], memo)
+            if r: return r
+    elif isinstance(a, list) and isinstance(b, list) and len(a) == len(b):
+        for x, y in zip(a, b):
+            r = _same_order(x, y, memo)
+            if r: return r
+    return None
+
+def _c16_classes(be):
+    import yaml
+    if be == 'py': return [(yaml.SafeDumper, yaml.SafeLoader, 'SafeDumper'), (yaml.Dumper, yaml.SafeLoader, 'Dumper')]
+    if not hasattr(yaml, 'CSafeDumper'): return []
+    return [(yaml.CSafeDumper, yaml.CSafeLoader, 'CSafeDumper'), (yaml.CDumper, yaml.CSafeLoader, 'CDumper')]
+
 def c16(enc, opts, be, perm_seed):
-    import yaml, random
+    import yaml, random, hashlib
     from tools.values import decode
-    D, L = _classes(be)
-    if D is None: return dict(bad=[], outcome='no_c')
-    v = decode(enc); o = _dump_opts(opts); bad = []
-    try:
-        t1 = yaml.dump(v, Dumper=D, **o)
-    except Exception as e:
-        return dict(bad=[dict(kind='dump_raises', what='safe_dump raised %s' % type(e).__name__, exc=type(e).__name__, dumper=be)], outcome='dump_raises')
-    t1b = yaml.dump(v, Dumper=D, **o)
-    if t1b != t1: bad.append(dict(kind='not_deterministic', what='two dumps of the same object differ', dumper=be))
-    if o.get('sort_keys', True):
-        w = _permuted(v, random.Random(perm_seed), {})
-        t2 = yaml.dump(w, Dumper=D, **o)
-        if t2 != t1:
-            k = 0
-            while k < min(len(t1), len(t2)) and t1[k] == t2[k]: k += 1
-            bad.append(dict(kind='order_dependent', what='with sort_keys the text depends on the insertion order: %r vs %r' % (t1[max(0, k - 30):k + 30], t2[max(0, k - 30):k + 30]), dumper=be))
-    try:
-        back = yaml.load(t1, Loader=L)
-        t3 = yaml.dump(back, Dumper=D, **o)
-        if t3 != t1:
-            k = 0
-            while k < min(len(t1), len(t3)) and t1[k] == t3[k]: k += 1
+    classes = _c16_classes(be)
+    if not classes: return dict(bad=[], outcome='no_c')
+    v = decode(enc); o = _dump_opts(opts); bad = []; digest = None; texts = {}
+    for D, L, dname in classes:
+        try:
+            t1 = yaml.dump(v, Dumper=D, **o)
+        except Exception as e:
+            return dict(bad=[dict(kind='dump_raises', what='%s raised %s' % (dname, type(e).__name__), exc=type(e).__name__, dumper=be, cls=dname)], outcome='dump_raises')
+        texts[dname] = t1
+        t1b = yaml.dump(v, Dumper=D, **o)
+        if t1b != t1: bad.append(dict(kind='not_deterministic', what='two dumps of the same object differ', dumper=be, cls=dname))
+        if o.get('sort_keys', True):
+            w = _permuted(v, random.Random(perm_seed), {})
+            t2 = yaml.dump(w, Dumper=D, **o)
+            if t2 != t1:
+                k = 0
+                while k < min(len(t1), len(t2)) and t1[k] == t2[k]: k += 1
+                bad.append(dict(kind='order_dependent', what='with sort_keys the text depends on the insertion order: %r vs %r' % (t1[max(0, k - 30):k + 30], t2[max(0, k - 30):k + 30]), dumper=be, cls=dname))
+        try:
+            back = yaml.load(t1, Loader=L)
+            t3 = yaml.dump(back, Dumper=D, **o)
+            if t3 != t1:
+                k = 0
+                while k < min(len(t1), len(t3)) and t1[k] == t3[k]: k += 1
+                txt = t1 if isinstance(t1, str) else t1.decode(o['encoding'], 'replace')
+                bad.append(dict(kind='not_fixed_point', what='dump(load(dump(x))) differs from dump(x) at offset %d: %r vs %r' % (k, t1[max(0, k - 30):k + 30], t3[max(0, k - 30):k + 30]), text=txt[:6000], dumper=be, cls=dname))
+            if o.get('sort_keys', True) is False:
+                r = _same_order(v, back, set())
+                if r:
+                    txt = t1 if isinstance(t1, str) else t1.decode(o['encoding'], 'replace')
+                    bad.append(dict(kind='order_not_kept', what='%s with sort_keys=False does not keep the insertion order of a mapping: %s' % (dname, r), text=txt[:3000], dumper=be, cls=dname))
+        except Exception as e:
             txt = t1 if isinstance(t1, str) else t1.decode(o['encoding'], 'replace')
-            bad.append(dict(kind='not_fixed_point', what='dump(load(dump(x))) differs from dump(x) at offset %d: %r vs %r' % (k, t1[max(0, k - 30):k + 30], t3[max(0, k - 30):k + 30]), text=txt[:6000], dumper=be))
-    except Exception as e:
-        txt = t1 if isinstance(t1, str) else t1.decode(o['encoding'], 'replace')
-        bad.append(dict(kind='dump_unreadable', what='the dumped text is not loadable (%s)' % type(e).__name__, exc=type(e).__name__, text=txt[:6000], dumper=be))
-    import hashlib
-    return dict(bad=bad, outcome='ok' if not bad else 'bad', digest=hashlib.sha256(t1.encode('utf-8', 'surrogatepass') if isinstance(t1, str) else t1).hexdigest())
+            bad.append(dict(kind='dump_unreadable', what='the dumped text is not loadable (%s)' % type(e).__name__, exc=type(e).__name__, text=txt[:6000], dumper=be, cls=dname))
+        if digest is None: digest = hashlib.sha256(t1.encode('utf-8', 'surrogatepass') if isinstance(t1, str) else t1).hexdigest()
+        if bad: break
+    return dict(bad=bad, outcome='ok' if not bad else 'bad', digest=digest)
 
 HANDLERS.update({'c16': c16})
 
